@@ -313,6 +313,24 @@ func codecOracleUtil(c fw.Case) *fw.OracleFailure {
 			gbk := utils.UTF82GBK(fw.Exact(in))
 			if back := utils.GBK2UTF8(gbk); !bytes.Equal(back, in) {
 				f = &fw.OracleFailure{Sig: name + "/roundtrip", Msg: fmt.Sprintf("utf8 %x -> gbk %x -> utf8 %x", in, gbk, back)}
+				return
+			}
+			// what a helper returned belongs to the caller: converting another text afterwards must not change it
+			// (an encoder that holds the bytes across a second conversion would put the other text into its body)
+			held := utils.UTF82GBK(fw.Exact(in))
+			snap := append([]byte{}, held...)
+			other := append([]byte("\xe5\x8c\x97\xe6\x96\x97-"), in...)
+			_ = utils.UTF82GBK(other)
+			_ = utils.GBK2UTF8(utils.UTF82GBK(other))
+			if !bytes.Equal(held, snap) {
+				f = &fw.OracleFailure{Sig: name + "/result-not-stable", Msg: fmt.Sprintf("gbk %x of utf8 %x became %x after another text was converted", snap, in, held)}
+				return
+			}
+			heldU := utils.GBK2UTF8(snap)
+			snapU := append([]byte{}, heldU...)
+			_ = utils.GBK2UTF8(utils.UTF82GBK(other))
+			if !bytes.Equal(heldU, snapU) {
+				f = &fw.OracleFailure{Sig: name + "/result-not-stable", Msg: fmt.Sprintf("utf8 %x became %x after another text was converted", snapU, heldU)}
 			}
 		case "utils.String2FillingBytes":
 			if len(in) > ctx.n || bytes.IndexByte(in, 0) >= 0 {
